@@ -259,6 +259,11 @@ def check_console(t, viol, obs):
         # the report is laid out differently from the shipped one: read it format-agnostically - the statement only says that it SHOWS the
         # solution's actual trial counts, point, value and accuracy
         missing = console_fields_missing(t, sol)
+        lc_ = [n for n in getattr(t, "local_calls", []) if n > 0]
+        if lc_ and not missing:
+            obs["console_local_counts_checked"] = obs.get("console_local_counts_checked", 0) + 1
+            if sol.numberOfLocalTrials not in (lc_[-1], lc_[-1] - 1):
+                missing = ["local trial count: the report shows %d, the latest refinement made %d evaluations" % (sol.numberOfLocalTrials, lc_[-1])]
         if missing:
             viol.append({"mech": "console-final-report-missing", "parsed": d, "fields_not_shown": missing, "tail": t.stdout[-400:]})
         else:
